@@ -80,11 +80,12 @@ impl<T: Types> RaftLogWriter<T> for RaftLog<T> {
 
     fn append<I>(&mut self, entries: I) -> Result<Segment, io::Error>
     where I: IntoIterator<Item = (T::LogId, T::LogPayload)> {
+        let mut segment = self.wal.last_segment();
         for (log_id, payload) in entries {
             let record = WALRecord::Append(log_id, payload);
-            self.append_and_apply(&record)?;
+            segment = self.append_and_apply(&record)?;
         }
-        Ok(self.wal.last_segment())
+        Ok(segment)
     }
 
     /// Truncate at `index`, keep the record before `index`.
@@ -553,10 +554,14 @@ impl<T: Types> RaftLog<T> {
             self.wal.last_segment(),
         )?;
 
+        // The segment of the record just written. Closing a full chunk below
+        // starts a new chunk, whose last segment is its head state record.
+        let segment = self.wal.last_segment();
+
         self.wal
             .try_close_full_chunk(|| self.state_machine.log_state.clone())?;
 
-        Ok(self.wal.last_segment())
+        Ok(segment)
     }
 
     /// Returns the current size of the log on disk in bytes.
